@@ -1,6 +1,98 @@
+(* C03 property theorems (minimum claim): cutoff and prediction index of every program
+   fit ; update* ; predict, for all integer series and horizons; one value per step, finiteness and
+   shift-equivariance for the NaiveForecaster / PolynomialTrendForecaster leaves whose values are
+   modelled.  Statements only, each closed by `exact`. *)
 From Coq Require Import ZArith QArith List Bool.
-Require Import SkV.Lib.Base SkV.Lib.ZRange SkV.C11.Model SkV.C03.Model SkV.C03.Proofs.
+Require Import SkV.Lib.Base SkV.Lib.ZRange SkV.C11.Model SkV.C11.Proofs SkV.C03.Model SkV.C03.Proofs.
 Import ListNotations.
 Open Scope Z_scope.
-Theorem C03_stub : True. Proof. exact stub_true. Qed.
-Print Assumptions C03_stub.
+
+(* one label per requested step: cutoff + step for relative horizons, the requested time points for
+   absolute ones, strictly increasing *)
+Theorem C03_predict_index : forall st h,
+  length (pred_index st h) = length (hlist h) /\
+  (forall l, h = Rel l -> pred_index st h = map (fun r => cutoff st + r) l) /\
+  (forall l, h = Abs l -> pred_index st h = l) /\
+  (sorted_lt (hlist h) -> sorted_lt (pred_index st h)).
+Proof. exact predict_index. Qed.
+Print Assumptions C03_predict_index.
+
+(* the horizon used is the one passed to predict, else the one remembered from fit *)
+Theorem C03_fh_from_fit_or_predict : forall hf hp h, used_fh hf hp = Ok h ->
+  hp = Some h \/ (hp = None /\ hf = Some h).
+Proof. exact used_fh_spec. Qed.
+Print Assumptions C03_fh_from_fit_or_predict.
+
+Theorem C03_cutoff_after_fit : forall s, cutoff (fit_state s) = t0 s + zlen (ys s) - 1.
+Proof. exact cutoff_after_fit. Qed.
+Print Assumptions C03_cutoff_after_fit.
+
+(* after an update: the last time point of the batch (tb = its first time point); unchanged for an
+   empty batch *)
+Theorem C03_cutoff_after_update : forall st tb b,
+  cutoff (update_state st (tb, b)) = match b with [] => cutoff st | _ => tb + zlen b - 1 end.
+Proof. exact cutoff_after_update. Qed.
+Print Assumptions C03_cutoff_after_update.
+
+(* after any history of updates, and the reported trace has one cutoff per step *)
+Theorem C03_cutoff_after_history : forall s ups,
+  cutoff (run_state s ups) = fold_left next_cutoff ups (t0 s + zlen (ys s) - 1) /\
+  length (cutoff_trace (fit_state s) ups) = S (length ups) /\
+  last (cutoff_trace (fit_state s) ups) 0 = cutoff (run_state s ups).
+Proof.
+  intros s ups. split; [exact (cutoff_after_history s ups)|].
+  destruct (cutoff_trace_spec ups (fit_state s)) as [H1 [H2 _]]. exact (conj H1 H2).
+Qed.
+Print Assumptions C03_cutoff_after_history.
+
+(* batches that continue the series keep the cutoff at the last observed time point *)
+Theorem C03_cutoff_is_last_observed_time : forall s ups, contiguous (fit_state s) ups ->
+  cutoff (run_state s ups) = last_time (obs (run_state s ups)) /\ t0 (obs (run_state s ups)) = t0 s.
+Proof. exact coherent_run. Qed.
+Print Assumptions C03_cutoff_is_last_observed_time.
+
+Theorem C03_leaf_one_value_per_step : forall f train st h vals,
+  all_pos (to_relative (cutoff st) h) -> leaf_values f train st h = Ok vals ->
+  length vals = length (hlist h).
+Proof. exact leaf_one_value_per_step. Qed.
+Print Assumptions C03_leaf_one_value_per_step.
+
+(* finite data, out-of-sample horizon => finite forecasts, for the naive and polynomial leaves after
+   any updates.  The two excluded configurations are open findings (Refuted.v): drift with a
+   resolved window of length 1, seasonal mean with a window shorter than one season. *)
+Theorem C03_leaf_finite_for_finite : forall f train st h vals,
+  finite (ys (obs st)) -> sorted_lt (to_relative (cutoff st) h) ->
+  all_pos (to_relative (cutoff st) h) ->
+  match f with
+  | FNaive s sp wlo =>
+      1 <= sp /\ (forall w, wlo = Some w -> 1 <= w) /\ 1 <= zlen (ys train) /\
+      zlen (ys train) <= zlen (ys (obs st)) /\
+      ~ (s = SDrift /\ documented_wl s sp wlo (zlen (ys train)) = 1) /\
+      (s = SMean -> sp = 1 \/ sp <= documented_wl s sp wlo (zlen (ys train)))
+  | FPoly _ _ => True
+  end ->
+  leaf_values f train st h = Ok vals -> finite vals.
+Proof. exact leaf_finite. Qed.
+Print Assumptions C03_leaf_finite_for_finite.
+
+(* shifting every time index of the program by k shifts every cutoff and every forecast label by k
+   and leaves the values unchanged *)
+Theorem C03_shift_equivariance : forall k leaf s ups refit h,
+  model_run leaf (shift_series k s) (map (shift_batch k) ups) refit (shift_h k h)
+  = let '(trace, idx, v) := model_run leaf s ups refit h in
+    (map (fun c => c + k) trace, map (fun t => t + k) idx, v).
+Proof. exact shift_equivariance. Qed.
+Print Assumptions C03_shift_equivariance.
+
+Theorem C03_shift_relative_horizon : forall k c h, to_relative (c + k) (shift_h k h) = to_relative c h.
+Proof. exact shift_relative. Qed.
+Print Assumptions C03_shift_relative_horizon.
+
+(* non-vacuity: a program with two updates (one empty), a gapped absolute horizon, seasonal mean *)
+Example C03_nonvacuous :
+  let s := {| t0 := 7; ys := [Some 1; Some 2; Some 4; Some 8; Some 16]%Q |} in
+  let ups := [(12, [Some 32; Some 64]%Q); (14, [])] in
+  contiguous (fit_state s) ups /\
+  model_run (Some (FNaive SMean 2 (Some 3))) s ups false (Abs [14; 17])
+  = ([11; 13; 13], [14; 17], Some (Ok [Some 32%Q; Some (80 # 2)%Q])).
+Proof. vm_compute. repeat split; try reflexivity; right; reflexivity. Qed.
